@@ -151,6 +151,8 @@ pub struct EntrySnap {
     /// Address of the shared entry info (sync only; 0 on unsync).
     pub info_addr: usize,
     pub weight: u32,
+    /// sync: the weight maintenance has accounted for the entry; unsync: `weight`.
+    pub accounted: u32,
     /// sync only (unsync keeps timestamps in the deque nodes).
     pub last_accessed: Option<StdInstant>,
     /// sync only.
